@@ -21,7 +21,7 @@ import (
 // three ways query_test.go builds a search.Handler).
 var (
 	classes = []string{"plain", "deleted", "claimless"}
-	modes   = []string{"scan", "build", "classic"}
+	modes   = []string{"scan", "build", "classic", "warm"}
 )
 
 // claim is the harness's own record of one attribute claim (the model folds
@@ -221,15 +221,48 @@ func buildWorld(class, mode string) (*W, error) {
 	if err != nil {
 		return nil, err
 	}
-	if mode == "build" {
+	if mode == "build" || mode == "warm" {
 		if w.corpus, err = x.Index.KeepInMemory(); err != nil {
 			return nil, err
 		}
+	}
+	if mode == "warm" {
+		// "warm": the corpus is built incrementally like in "build", but the file and directory
+		// blobs arrive last (after the claims that point at them) and the handler is queried with
+		// every sort after every arrival, so that everything the corpus caches between queries
+		// (sorted permanode lists, ...) has been filled at every intermediate state. The final
+		// answers must still be those of the complete world.
+		w.h = search.NewHandler(x.Index, index.NewOwner(a.KeyID, a.Pub.Ref))
+		w.h.SetCorpus(w.corpus)
+		var first, last []hs.Blob
+		for _, b := range feed {
+			switch w.byRef[b.Ref].typ {
+			case "file", "directory", "static-set":
+				last = append(last, b)
+			default:
+				if b.Name == "c1" || b.Name == "c2" {
+					last = append([]hs.Blob{b}, last...)
+				} else {
+					first = append(first, b)
+				}
+			}
+		}
+		feed = append(first, last...)
 	}
 	for _, b := range feed {
 		if err := x.Feed(b); err != nil {
 			return nil, fmt.Errorf("feeding %s: %v", b.Name, err)
 		}
+		if mode == "warm" {
+			for _, st := range []search.SortType{search.UnspecifiedSort, search.LastModifiedDesc, search.LastModifiedAsc, search.CreatedDesc, search.CreatedAsc, search.BlobRefAsc} {
+				for _, c := range []*search.Constraint{{Permanode: &search.PermanodeConstraint{}}, {Anything: true}} {
+					runQuery(w, &search.SearchQuery{Constraint: c, Sort: st, Limit: -1})
+				}
+			}
+		}
+	}
+	if mode == "warm" {
+		return w, nil
 	}
 	if mode == "scan" {
 		if w.corpus, err = x.Index.KeepInMemory(); err != nil {
